@@ -955,7 +955,9 @@ def c13(hist, stats=None):
             want = None                      # tie
         else:
             want = True
-        if want is not None and e_val != 'ret:' + repr(want):
+        # with stalls a handler that would finish in time can be held up past
+        # the (equally late) deadline: the report is judged in exact mode only
+        if exact and want is not None and e_val != 'ret:' + repr(want):
             out.append(Violation(
                 'C13', 'shutdown-report', site,
                 "co_shutdown of {} reported {} but handlers take {} with "
